@@ -757,6 +757,74 @@ pub fn c07_late_answers_after_a_survived_shutdown(rec: &mut Rec, rng: &mut Rng, 
     sim.w.teardown();
 }
 
+/// aimed (seed-independent): SEVERAL connections finish between the same two polls (their clients close) while another
+/// client — accepted later, on a recycled descriptor number — has a request in flight; then a newcomer arrives and the
+/// application answers late. Releasing the finished connections releases exactly those: the client with the request in
+/// flight keeps its connection and receives its answer, the newcomer receives only its own.
+pub fn c07_several_leave_between_two_polls(rec: &mut Rec, rng: &mut Rng, n_first: usize, leavers: usize, v_requests: usize) {
+    rec.case("routing-several-leave-in-one-poll");
+    rec.nontrivial();
+    let mut cfg = Cfg::base("C07");
+    cfg.max_clients = 9;
+    cfg.reconnect = true;
+    let mut sim = Sim::new(rec, cfg);
+    let firsts: Vec<usize> = (0..n_first).map(|_| { let c = sim.connect(rec); sim.poll(rec); c }).collect();
+    // the first one leaves; its descriptor number is recycled by V
+    sim.w.close(rec, firsts[0]);
+    sim.w.force_reserve = true;
+    sim.poll(rec);
+    sim.poll(rec);
+    let v = sim.connect(rec);
+    sim.poll(rec);
+    for _ in 0..v_requests {
+        sim.plan_request(rng, v);
+    }
+    sim.send_next(rec, rng, v);
+    while !sim.plans[v].outq.is_empty() {
+        sim.send_next(rec, rng, v);
+    }
+    for _ in 0..4 {
+        sim.poll(rec);
+    }
+    // several of the others leave between the same two polls
+    for &c in firsts.iter().skip(1).take(leavers) {
+        sim.w.close(rec, c);
+    }
+    sim.w.force_reserve = true;
+    sim.poll(rec);
+    sim.poll(rec);
+    let w = sim.connect(rec);
+    sim.poll(rec);
+    sim.send_next(rec, rng, w);
+    while !sim.plans[w].outq.is_empty() {
+        sim.send_next(rec, rng, w);
+    }
+    sim.poll(rec);
+    sim.poll(rec);
+    while let Some(idx) = sim.w.held.iter().position(|h| h.client == Some(v)) {
+        sim.respond(rec, rng, idx);
+        sim.poll(rec);
+    }
+    while let Some(idx) = sim.w.held.iter().position(|h| h.client == Some(w)) {
+        sim.respond(rec, rng, idx);
+        sim.poll(rec);
+    }
+    for _ in 0..3 {
+        sim.poll(rec);
+    }
+    sim.w.client_read(rec, w);
+    sim.w.client_read(rec, v);
+    let (resps, _) = split_responses(&sim.w.clients[v].received);
+    let got = resps.iter().filter(|(c, _)| *c == 200).count();
+    if got != sim.plans[v].answered.len() {
+        rec.oracle_fail("C07", &format!("{} connections were released in one poll; the client whose {} requests were in flight meanwhile (it never left) received {} of the {} answers supplied for it", leavers, v_requests, got, sim.plans[v].answered.len()), &sim.w.log);
+    }
+    sim.settle(rec, rng);
+    common_checks(rec, &mut sim, "C07");
+    check_yield_once(rec, &sim);
+    sim.w.teardown();
+}
+
 /// aimed (seed-independent): a large answer to A is only partly written (A is not reading yet) when answers to B and C
 /// are supplied and written; then A drains. Every byte each client receives belongs to ITS answer — nothing about a
 /// half-written response may live anywhere but in its own connection
@@ -823,6 +891,11 @@ pub fn c07_partial_write_while_others_are_answered(rec: &mut Rec, rng: &mut Rng,
 pub fn c07(rec: &mut Rec, rng: &mut Rng, thorough: bool) {
     for big in [300_000usize, 900_000] {
         c07_partial_write_while_others_are_answered(rec, rng, big);
+    }
+    for (n_first, leavers) in [(3usize, 2usize), (4, 2), (4, 3), (6, 4)] {
+        for v_requests in 1..=2 {
+            c07_several_leave_between_two_polls(rec, rng, n_first, leavers, v_requests);
+        }
     }
     for n_req in 1..=3 {
         for polls in 1..=2 {
@@ -1810,6 +1883,54 @@ pub fn c10_close_and_request_in_one_batch(rec: &mut Rec, rng: &mut Rng) {
     sim.w.teardown();
 }
 
+/// at capacity a client connects and is GONE AGAIN before the server's next poll (connect, close): the server turns it
+/// away all the same — the 503 cannot be delivered — and holds no descriptor for it afterwards; the ten open connections
+/// are served as before, and the next client that comes and stays is refused properly.
+pub fn c10_refused_client_already_gone(rec: &mut Rec, rng: &mut Rng, vanished: usize) {
+    rec.case("capacity-refused-client-already-gone");
+    rec.nontrivial();
+    let mut cfg = Cfg::base("C10");
+    cfg.max_clients = 11 + vanished + 1;
+    let mut sim = Sim::new(rec, cfg);
+    for _ in 0..10 {
+        sim.connect(rec);
+        sim.poll(rec);
+    }
+    for _ in 0..vanished {
+        let x = sim.connect(rec);
+        sim.w.close(rec, x);
+        sim.poll(rec);
+        sim.poll(rec);
+    }
+    let conns = sim.w.server_fds().len().saturating_sub(2);
+    if conns != 10 {
+        rec.oracle_fail("C10", &format!("{} clients connected at capacity and were gone before the next poll: the server now holds {} descriptors beyond listener and epoll, expected 10", vanished, conns), &sim.w.log);
+    }
+    // the open ones are served
+    sim.send_next(rec, rng, 3);
+    while !sim.plans[3].outq.is_empty() {
+        sim.send_next(rec, rng, 3);
+    }
+    for _ in 0..3 {
+        sim.poll(rec);
+    }
+    let y = sim.connect(rec);
+    for _ in 0..3 {
+        sim.poll(rec);
+    }
+    sim.w.client_read(rec, y);
+    if !sim.w.clients[y].refused {
+        rec.oracle_fail("C10", "ten connections open: a client that connected after the vanished ones was not refused with the 503", &sim.w.log);
+    }
+    sim.settle(rec, rng);
+    common_checks(rec, &mut sim, "C10");
+    let conns = sim.w.server_fds().len().saturating_sub(2);
+    if sim.w.server.is_some() && conns != 10 {
+        rec.oracle_fail("C10", &format!("after settling the server holds {} descriptors beyond listener and epoll, expected 10", conns), &sim.w.log);
+    }
+    sim.w.teardown();
+}
+
 /// the refusal message is FIXED: whatever the application's own responses looked like before (their Server identity,
 /// version, content type), a client turned away at capacity reads exactly the documented 503 message
 pub fn c10_fixed_message_after_application_answers(rec: &mut Rec, rng: &mut Rng) {
@@ -2047,7 +2168,10 @@ pub fn c10(rec: &mut Rec, rng: &mut Rng, thorough: bool) {
     for requests in 1..=2 {
         c10_failed_write_frees_slot(rec, rng, requests);
     }
-    c10_close_and_request_in_one_batch(rec, rng);
+for vanished in [1usize, 3] {
+        c10_refused_client_already_gone(rec, rng, vanished);
+    }
+        c10_close_and_request_in_one_batch(rec, rng);
     c10_fixed_message_after_application_answers(rec, rng);
     for with_kill in [false, true] {
         c10_connection_on_descriptor_zero(rec, rng, with_kill);
